@@ -1,4 +1,5 @@
 import Casm.Proofs.IterModel
+import Casm.Proofs.AssembleLemmas
 /-!
 # C09 — the iteration budget decides whether a program assembles, never to what
 
@@ -35,22 +36,7 @@ theorem iters_le_budget (opts : Opts) (fs : SrcFiles) (roots : List (List Char))
     obtain ⟨st, nodes, defs0⟩ := x
     rw [hf] at h
     simp only at h
-    have hst : st.opts = opts := by
-      unfold frontEnd at hf
-      split at hf
-      · cases hf
-      · split at hf
-        · cases hf
-        · simp only at hf
-          split at hf
-          · cases hf
-          · split at hf
-            · cases hf
-            · split at hf
-              · cases hf
-              · split at hf
-                · cases hf
-                · injection hf with hf; injection hf with h1 _; rw [← h1]
+    have hst : st.opts = opts := (frontEnd_opts opts fs roots st nodes defs0 hf).1
     cases hr : resolveIteratively st nodes defs0 with
     | error e => rw [hr] at h; cases h
     | ok y =>
